@@ -43,7 +43,7 @@ def cfg(pid, tier):
     c = dict(
         IntVals="{" + ", ".join(big(v) for v in int_vals(tier)) + "}",
         Lens=S(0, 1, 127, 128, 255, 256, 65535, 65536), BitLens="(0..17) \\cup {24, 1023, 1024}",
-        Kinds1=S("int", "int32", "bool", "octets", "utf8", "ia5", "graphic", "enum", "bits", "null", "wrapint", "wraplist", "struct2",
+        Kinds1=S("int", "goint", "int32", "bool", "octets", "utf8", "ia5", "graphic", "enum", "bits", "null", "wrapint", "wraplist", "struct2",
                  "choice2", "sliceint", "slicestruct", "sliceoctets", "oid"),
         Tags1=S(0, 30, 31, 127, 128, 16383, 16384, 2097152),
         Kinds2=S("int", "octets", "bits", "struct2", "choice2", "sliceint") if quick else
